@@ -3,7 +3,10 @@ from .stmt import Stmt
 
 
 class BaseCode:
-    pass
+    def check_limits(self):
+        # raise a CompileError if the generated code cannot be
+        # represented in the target's format
+        pass
 
 
 class CodeGen:
